@@ -6,7 +6,7 @@ use crate::srv::{self, ct};
 use kanidm_lib_crypto::CryptoPolicy;
 use kanidmd_lib::constants::*;
 use kanidmd_lib::credential::Credential;
-use kanidmd_lib::idm::authentication::{AuthCredential, AuthState, ReauthRequest};
+use kanidmd_lib::idm::authentication::{AuthCredential, AuthExternal, AuthState, ReauthRequest};
 use kanidmd_lib::idm::delayed::DelayedAction;
 use kanidmd_lib::idm::event::{AuthEvent, AuthEventStep, AuthEventStepCred, AuthEventStepInit, AuthEventStepMech, AuthResult};
 use kanidmd_lib::idm::server::{IdmServerProxyWriteTransaction, IdmServerTransaction};
@@ -274,6 +274,107 @@ impl World {
             AuthState::Success(t, _) => Login::Success(t.to_string()),
             s => Login::Error(format!("unfinished {s:?}")),
         }
+    }
+
+    /// An upstream OAuth2 provider entry (class oauth2_client) and a person whose only credential is
+    /// the trust to that provider (class oauth2_account). `sub` is the subject the provider knows.
+    pub async fn create_oauth2_trust_person(&self, off: u64, provider: Uuid, person: Uuid, name: &str, sub: &str, cred_id: Uuid) -> Result<(), OperationError> {
+        let mut p: crate::pop::NewEntry = kanidmd_lib::entry::Entry::new();
+        p.add_ava(Attribute::Class, EntryClass::Object.to_value());
+        p.add_ava(Attribute::Class, EntryClass::OAuth2Client.to_value());
+        p.add_ava(Attribute::Uuid, Value::Uuid(provider));
+        p.add_ava(Attribute::Name, Value::new_iname("vupstream"));
+        p.add_ava(Attribute::OAuth2ClientId, Value::new_utf8s("vclient"));
+        p.add_ava(Attribute::OAuth2ClientSecret, Value::new_utf8s("vclient-secret"));
+        p.add_ava(Attribute::OAuth2AuthorisationEndpoint, Value::new_url_s("https://upstream.example.org/oauth2/authorise").expect("url"));
+        p.add_ava(Attribute::OAuth2TokenEndpoint, Value::new_url_s("https://upstream.example.org/oauth2/token").expect("url"));
+        p.add_ava(Attribute::OAuth2TokenIntrospectEndpoint, Value::new_url_s("https://upstream.example.org/oauth2/introspect").expect("url"));
+        p.add_ava(Attribute::OAuth2RequestScopes, Value::new_oauthscope("openid").expect("scope"));
+        let mut e = crate::pop::person(person, name);
+        e.add_ava(Attribute::Class, EntryClass::OAuth2Account.to_value());
+        e.add_ava(Attribute::OAuth2AccountProvider, Value::Refer(provider));
+        e.add_ava(Attribute::OAuth2AccountUniqueUserId, Value::new_utf8s(name));
+        e.add_ava(Attribute::OAuth2AccountUniqueUserSub, Value::new_utf8s(sub));
+        e.add_ava(Attribute::OAuth2AccountCredentialUuid, Value::Uuid(cred_id));
+        self.write(off, move |w| w.qs_write.internal_create(vec![p])).await?;
+        self.write(off + 1, move |w| w.qs_write.internal_create(vec![e])).await
+    }
+
+    /// One OAuth2-trust login through the real auth state machine; the harness plays the upstream
+    /// provider (authorisation code, access token, RFC 7662 introspection answering `sub`).
+    pub async fn login_oauth2_trust(&self, name: &str, sub: &str, privileged: bool, off: u64) -> Login {
+        use kanidm_proto::oauth2::{AccessTokenIntrospectResponse, AccessTokenResponse, AccessTokenType, IssuedTokenType};
+        let now = ct(off);
+        let mut a = match self.idms.auth().await {
+            Ok(a) => a,
+            Err(e) => return Login::Error(format!("auth txn {e:?}")),
+        };
+        let init = AuthEvent {
+            ident: None,
+            step: AuthEventStep::Init(AuthEventStepInit {
+                username: name.to_string(),
+                issue: AuthIssueSession::Token,
+                privileged,
+            }),
+        };
+        let AuthResult { sessionid, state } = match a.auth(&init, now, hk::client_auth_none()).await {
+            Ok(r) => r,
+            Err(e) => return Login::Error(format!("init {e:?}")),
+        };
+        match state {
+            AuthState::Choose(m) if m.iter().any(|x| matches!(x, AuthMech::OAuth2Trust)) => {}
+            AuthState::Denied(r) => return Login::Denied(r),
+            s => return Login::Error(format!("init -> {s:?}")),
+        }
+        let begin = AuthEvent {
+            ident: None,
+            step: AuthEventStep::Begin(AuthEventStepMech { sessionid, mech: AuthMech::OAuth2Trust }),
+        };
+        let mut state = match a.auth(&begin, now, hk::client_auth_none()).await {
+            Ok(r) => r.state,
+            Err(e) => return Login::Error(format!("begin {e:?}")),
+        };
+        for _ in 0..4 {
+            let cred = match state {
+                AuthState::External(AuthExternal::OAuth2AuthorisationRequest { request, .. }) => AuthCredential::OAuth2AuthorisationResponse {
+                    code: "verif-code".to_string(),
+                    state: request.state.clone(),
+                },
+                AuthState::External(AuthExternal::OAuth2AccessTokenRequest { .. }) => AuthCredential::OAuth2AccessTokenResponse {
+                    response: AccessTokenResponse {
+                        access_token: "verif-access-token".to_string(),
+                        token_type: AccessTokenType::Bearer,
+                        issued_token_type: Some(IssuedTokenType::AccessToken),
+                        expires_in: 300,
+                        refresh_token: Some("verif-refresh-token".to_string()),
+                        scope: ["openid".to_string()].into_iter().collect(),
+                        id_token: None,
+                    },
+                },
+                AuthState::External(AuthExternal::OAuth2AccessTokenIntrospectionRequest { .. }) => AuthCredential::OAuth2AccessTokenIntrospectResponse {
+                    response: AccessTokenIntrospectResponse {
+                        active: true,
+                        sub: Some(sub.to_string()),
+                        ..Default::default()
+                    },
+                },
+                AuthState::Denied(r) => return Login::Denied(r),
+                AuthState::Success(t, _) => {
+                    let _ = a.commit();
+                    return Login::Success(t.to_string());
+                }
+                s => return Login::Error(format!("unexpected state {s:?}")),
+            };
+            let ev = AuthEvent {
+                ident: None,
+                step: AuthEventStep::Cred(AuthEventStepCred { sessionid, cred }),
+            };
+            state = match a.auth(&ev, now, hk::client_auth_none()).await {
+                Ok(r) => r.state,
+                Err(e) => return Login::Error(format!("cred {e:?}")),
+            };
+        }
+        Login::Error("oauth2 trust flow did not finish".into())
     }
 
     /// Re-authentication of the session behind `ident` (all steps at `off`).
